@@ -18,7 +18,9 @@ def coins_to_satoshis(coins):
 
 
 def satoshis_to_coins(satoshis):
-    coins = '{:.8f}'.format(satoshis / COIN).rstrip('0')
+    # integer arithmetic only: float division loses precision above 2**53 satoshis
+    whole, fractional = divmod(abs(satoshis), COIN)
+    coins = '{}{}.{:08d}'.format('-' if satoshis < 0 else '', whole, fractional).rstrip('0')
     if coins.endswith('.'):
         return coins+'0'
     else:
